@@ -265,6 +265,12 @@ func (enc *Encoder) Literal(size int64, sync *ContinuationRequest) io.WriteClose
 		panic("imapwire: sync must be nil on a server-side Encoder.Literal")
 	}
 
+	if enc.err != nil {
+		// The command has already failed (for instance the server has refused
+		// a previous literal): none of the payload must reach the connection
+		return errorWriter{enc.err}
+	}
+
 	// TODO: literal8
 	enc.writeString("{")
 	enc.Number64(size)
